@@ -58,9 +58,12 @@ func (x *Exec) ctxFor(st *State, fr *Frame, old *Heap, extra map[string]Value) *
 		if fr.fn.Pkg != nil {
 			c.pkg = fr.fn.Pkg.Pkg
 		}
-		for _, p := range fr.fn.Params {
+		for i, p := range fr.fn.Params {
 			if v, ok := fr.env[p]; ok {
 				c.vars[p.Name()] = v
+				if fr.fn == x.fn && x.fc != nil && i < len(x.fc.Params) {
+					c.vars[x.fc.Params[i]] = v
+				}
 			}
 		}
 	}
@@ -377,6 +380,9 @@ func (c *evalCtx) binary(n *ast.BinaryExpr) Value {
 		return Sc{eq}
 	}
 	a, b := c.term(n.X), c.term(n.Y)
+	if a.IsBV() || b.IsBV() {
+		return Sc{bvContractOp(c, n.Op, a, b)}
+	}
 	switch n.Op {
 	case token.ADD:
 		return Sc{Add(a, b)}
@@ -419,6 +425,9 @@ func (c *evalCtx) binary(n *ast.BinaryExpr) Value {
 func (c *evalCtx) valEq(a, b Value) *Term {
 	switch av := a.(type) {
 	case Sc:
+		if av.T.IsBV() || scT(b).IsBV() {
+			return Eq(toBV32(c, av.T), toBV32(c, scT(b)))
+		}
 		return Eq(av.T, scT(b))
 	case Fn:
 		return Eq(av.T, scT(b))
@@ -649,6 +658,12 @@ func (c *evalCtx) callExpr(n *ast.CallExpr) Value {
 		}
 	case "isview":
 		return Sc{tTrue}
+	case "min":
+		a, b := c.term(arg(0)), c.term(arg(1))
+		return Sc{Ite(Le(a, b), a, b)}
+	case "max":
+		a, b := c.term(arg(0)), c.term(arg(1))
+		return Sc{Ite(Ge(a, b), a, b)}
 	case "int", "int64", "int32", "uint", "uint64":
 		return Sc{c.term(arg(0))}
 	case "uint32":
@@ -797,4 +812,52 @@ func (c *evalCtx) specApp(sf *SpecFun, n *ast.CallExpr) Value {
 		return Ar{A: t, N: 1 << 30}
 	}
 	return Sc{t}
+}
+
+// ---- bit-vector mode: contract arithmetic is 32-bit modular on zero-extended operands ----
+
+func toBV32(c *evalCtx, t *Term) *Term {
+	switch {
+	case t.IsInt():
+		return bvConst(t.Val, 32)
+	case t.IsBV():
+		return bvResize(t, bvWidth(t.Sort), 32, true)
+	}
+	c.errf("cannot use %s in bit-vector arithmetic", t)
+	return nil
+}
+
+func bvContractOp(c *evalCtx, op token.Token, a, b *Term) *Term {
+	x, y := toBV32(c, a), toBV32(c, b)
+	s := bvSort(32)
+	switch op {
+	case token.ADD:
+		return App("bvadd", s, x, y)
+	case token.SUB:
+		return App("bvsub", s, x, y)
+	case token.MUL:
+		return App("bvmul", s, x, y)
+	case token.QUO:
+		return App("bvudiv", s, x, y)
+	case token.REM:
+		return App("bvurem", s, x, y)
+	case token.AND:
+		return App("bvand", s, x, y)
+	case token.OR:
+		return App("bvor", s, x, y)
+	case token.SHL:
+		return App("bvshl", s, x, y)
+	case token.SHR:
+		return App("bvlshr", s, x, y)
+	case token.LSS:
+		return App("bvult", SBool, x, y)
+	case token.LEQ:
+		return App("bvule", SBool, x, y)
+	case token.GTR:
+		return App("bvugt", SBool, x, y)
+	case token.GEQ:
+		return App("bvuge", SBool, x, y)
+	}
+	c.errf("operator %s not supported in bit-vector contracts", op)
+	return nil
 }
